@@ -755,7 +755,8 @@ func (d *DataRow) getVirtualSubLMDValue(peer *Peer, col *Column) (val interface{
 func (d *DataRow) MatchFilter(filter *Filter, negate bool) bool {
 	// recursive group filter
 	groupOperator := filter.groupOperator
-	negate = negate || filter.negate
+	// a negation inside an already negated group cancels out
+	negate = negate != filter.negate
 
 	if negate {
 		// Inverse the operation if negate is done at the GroupOperator
